@@ -721,6 +721,12 @@ func (s *Session) routingKeyInfo(ctx context.Context, stmt string) (*routingKeyI
 	}
 
 	for keyIndex, keyColumn := range partitionKey {
+		if keyColumn == nil {
+			// the schema tables do not describe this component of the partition key
+			// (the table's metadata is incomplete): no routing key, and no error
+			return nil, nil
+		}
+
 		// set an indicator for checking if the mapping is missing
 		routingKeyInfo.indexes[keyIndex] = -1
 
